@@ -16,7 +16,10 @@ EXTENDS Mem, LinMon, SetMap, TLC
 CONSTANTS NT, NNodes, Keys0Set, KeySet, MaxOps, Ord, AllowIter,
           RecheckPrev,    \* TRUE: find re-reads *prev after reading cur->next unmarked (code)
           MarkCheck,      \* TRUE: find treats a marked cur as deleted and unlinks it (code)
-          IterRetry       \* TRUE: operator++ retries when cur->next changed but is unmarked (fixed code); FALSE: falls into find (old code)
+          IterRetry,      \* TRUE: operator++ retries when cur->next changed but is unmarked (fixed code); FALSE: falls into find (old code)
+          KeepCurGuard    \* TRUE: the guard on the successor is held until the insertion CAS is done (emplace, emplace_or_get, repaired
+                          \* get_or_emplace); FALSE: it is dropped before the CAS (harris_michael_hash_map::do_get_or_emplace_lazy before the
+                          \* fix): the successor may be destroyed and its id handed out again (ABA)
 
 OrdCode == [f_ld0 |-> "rlx", f_acq |-> "acq", f_ldn |-> "rlx", f_ldn2 |-> "acq", f_unlink |-> "rel", f_chk |-> "rlx",
             x_stn |-> "rlx", x_cas |-> "rel", e_mark |-> "acq", e_unlink |-> "rel", casf |-> "rlx", b_acq |-> "acq", n_ld |-> "rlx", n_acq |-> "acq"]
@@ -206,7 +209,8 @@ x_stn(t) == /\ pc[t] = "x_stn"
             /\ Store(t, NEXT(loc[t].node), Lnk(g[t].cur.n, 0), Ord["x_stn"])
             /\ Acc(t, "st", "x_stn", Lnk(g[t].cur.n, 0), 1)
             /\ Goto(t, "x_cas")
-            /\ UNCHANGED <<loc, lin, budget, nst, inc, keyof, g, bad>>
+            /\ g' = IF KeepCurGuard THEN g ELSE [g EXCEPT ![t].cur.eff = FALSE]
+            /\ UNCHANGED <<loc, lin, budget, nst, inc, keyof, bad>>
 x_cas(t) == /\ pc[t] = "x_cas"
             /\ TouchCell(t, loc[t].prev, "emplace CASes a link of a destroyed node")
             /\ LET x == loc[t].prev exp == Lnk(g[t].cur.n, 0) IN
